@@ -218,7 +218,8 @@ def _run_unit(unit_name, rlimit=None, extra_args=()):
         if not prim or kind is None or d.get("code"):
             infra.append(msg + (" @%s:%s" % (prim[0]["file_name"], prim[0]["line_start"]) if prim else ""))
             # which function under contract the compile error points into (run_unit retries with that body left out)
-            if prim and os.path.basename(prim[0].get("file_name", "")) == os.path.basename(out) and 0 < prim[0]["line_start"] <= len(origin):
+            # (a solver resource limit is not a refused body: it is retried with a larger budget by run_unit and stays an undecided verdict of the whole function)
+            if prim and not re.search(r"rlimit|resource limit|timed? ?out", msg, re.I) and os.path.basename(prim[0].get("file_name", "")) == os.path.basename(out) and 0 < prim[0]["line_start"] <= len(origin):
                 ow = origin[prim[0]["line_start"] - 1].get("owner")
                 if ow and origin[prim[0]["line_start"] - 1].get("kind") not in ("spec", "raw", "ghost", "prelude"):
                     compile_error_owners.setdefault(ow, msg[:160])
